@@ -95,6 +95,18 @@ inline void fix_timescale(Plan& p)
   }
 }
 
+// swarm option: drive the backend through ManualBackendWorker from a simulated thread instead of quill's own thread
+inline void gen_backend_mode(Plan& p, Rng& r, uint32_t one_in = 5)
+{
+  if (r.chance(1, one_in))
+  {
+    p.cfg["backend_mode"] = 1;
+    p.cfg["manual_gap_ns"] = r.pick<int64_t>({0, 200, 1000, 5000});
+    p.cfg["manual_gap_every"] = r.pick<int64_t>({1, 3, 10});
+    p.cfg["manual_poll_all"] = r.chance(1, 2) ? 1 : 0;
+  }
+}
+
 inline size_t max_total_record(int fo)
 {
   FOInfo f = fo_info(fo);
